@@ -680,6 +680,58 @@ def _mem_take(ip, st, t, a, rt):
     return NotImplemented
 
 
+# --- checked integer conversions, Result -> Option, Option::filter -----------------------------------------------
+RESULT = 'std::result::Result'
+
+
+@regx(r'^std::convert::num::<impl std::convert::TryFrom<(i8|i16|i32|i64|isize)> for (u32|u64|usize)>::try_from$')
+def _try_from_signed(ip, st, t, a, rt):
+    # signed -> unsigned of at least the same width (i32 -> u32/u64/usize, i64/isize -> u64/usize): fails exactly for negatives
+    m = re.search(r'TryFrom<(\w+)> for (\w+)>', t.get('resolved') or t.get('callee') or '')
+    width = {'i8': 8, 'i16': 16, 'i32': 32, 'i64': 64, 'isize': 64, 'u32': 32, 'u64': 64, 'usize': 64}
+    if not m or width[m.group(2)] < width[m.group(1)]:
+        return NotImplemented
+    x = as_rf(a[0])
+    return I.ite(I.b_cmp('<=', RF.const(0), x), I.St(RESULT, 'Ok', {0: x}), I.St(RESULT, 'Err', {0: I.tup()}))
+
+
+def _res_parts(v):
+    v = deref(v)
+    if isinstance(v, I.St) and v.adt == RESULT:
+        return v.variant, v.fields.get(0)
+    if isinstance(v, I.Ite):
+        return 'ite', v
+    return 'sym', v
+
+
+@reg('std::result::Result::<T, E>::ok')
+def _res_ok(ip, st, t, a, rt):
+    k, p = _res_parts(a[0])
+    if k == 'Ok':
+        return I.some(p)
+    if k == 'Err':
+        return I.NONE
+    if k == 'ite':
+        return I.ite(p.c, _res_ok(ip, st, t, [p.a], rt), _res_ok(ip, st, t, [p.b], rt))
+    return NotImplemented
+
+
+@reg('std::option::Option::<T>::filter')
+def _opt_filter(ip, st, t, a, rt):
+    o, f = a
+    k, p = opt_parts(o)
+    if k == 'none':
+        return I.NONE
+    if k == 'some':
+        c = call_fn_value(ip, f, [ip.ref_to(p)], 'bool')
+        if isinstance(c, I.B):
+            return I.ite(c, I.some(p), I.NONE)
+        return NotImplemented
+    if k == 'ite':
+        return I.ite(p.c, _opt_filter(ip, st, t, [p.a, f], rt), _opt_filter(ip, st, t, [p.b, f], rt))
+    return NotImplemented
+
+
 def call_fn_value(ip, f, args, rt):
     fv = deref(f)
     if isinstance(fv, I.St) and isinstance(fv.adt, str) and fv.adt.startswith('closure:'):
@@ -1066,6 +1118,8 @@ def _opt_branch(ip, st, t, a, rt):
         return I.St(CF, 'Break', {0: I.NONE})
     if k == 'sym' and isinstance(p, I.Sym):
         return I.ite(opt_is_some(o), I.St(CF, 'Continue', {0: opt_payload(o, '?')}), I.St(CF, 'Break', {0: I.NONE}))
+    if k == 'ite':
+        return I.ite(p.c, _opt_branch(ip, st, t, [p.a], rt), _opt_branch(ip, st, t, [p.b], rt))
     return NotImplemented
 
 
